@@ -111,22 +111,23 @@ def single_def(fa, name, at):
     return None
 
 
-def origin(fa, expr, at):
+def origin(fa, expr, at, _seen=frozenset()):
     """The definition that created the object `expr` denotes at CFG node `at`: plain aliases (locals and
-    fields of self with one reaching assignment, casts) are followed back.  None if `expr` is not a name
-    with a unique definition."""
-    seen = set()
-    cur, where, last = expr, at, None
-    while True:
-        nm = _ref_name(strip_cast(cur))
-        if nm is None:
-            return last
-        d = single_def(fa, nm, where)
-        if d is None or (d.node, d.name) in seen:
-            return last
-        seen.add((d.node, d.name))
-        last = d
-        cur, where = d.value, d.node
+    fields of self, casts) are followed back; several reaching assignments are fine as long as they all lead
+    to the same creating definition.  None if `expr` is not such a name."""
+    nm = _ref_name(strip_cast(expr))
+    if nm is None:
+        return None
+    ds = fa.df.reaching(at, nm)
+    if not ds or any(d.kind != "assign" or d.value is None for d in ds):
+        return None
+    res = []
+    for d in ds:
+        if (d.node, d.name) in _seen:
+            return None
+        o = origin(fa, d.value, d.node, _seen | {(d.node, d.name)})
+        res.append(o if o is not None else d)
+    return res[0] if all((r.node, r.name) == (res[0].node, res[0].name) for r in res) else None
 
 
 def same_def(a, b):
@@ -146,6 +147,9 @@ def fexpand(fa, expr, at, depth=14, _stack=()):
         if depth <= 0:
             return None
         d = single_def(fa, name, at)
+        if d is None:
+            # several assignments of one and the same object (`x = obj` on both branches)
+            d = origin(fa, ast.parse(name, mode="eval").body, at)
         if d is None or (d.node, d.name) in _stack:
             return None
         return fexpand(fa, d.value, d.node, depth - 1, _stack + ((d.node, d.name),))
@@ -379,6 +383,33 @@ class FlatInit:
         o = origin(self.fa, ds[0].value, ds[0].node)
         return o if o is not None else ds[0]
 
+    def reads_final(self, expr, at, field):
+        """does `expr` at `at` denote what self.<field> holds when the constructor returns (the field read
+        after its last assignment, or a local the field was assigned from)?"""
+        fa = self.fa
+        fin = fa.df.reaching(self.exit, "self." + field)
+        if not fin:
+            return False
+        e = strip_cast(expr)
+        seen = set()
+        while True:
+            nm = _ref_name(e)
+            if nm is None:
+                return False
+            if nm == "self." + field:
+                return {(d.node, d.name) for d in fa.df.reaching(at, nm)} == {(d.node, d.name) for d in fin}
+            d = single_def(fa, nm, at)
+            if d is None:
+                break
+            # a local the field was assigned from
+            if any(f.kind == "assign" and f.value is not None and _ref_name(strip_cast(f.value)) == nm and same_def(single_def(fa, nm, f.node), d) for f in fin) and len(fin) == 1:
+                return True
+            if (d.node, d.name) in seen:
+                return False
+            seen.add((d.node, d.name))
+            e, at = strip_cast(d.value), d.node
+        return False
+
     def aliases_of(self, d):
         """all names / self fields (text) that are plain aliases of definition d somewhere"""
         fa = self.fa
@@ -408,6 +439,13 @@ def sibling_reference_sites(ck, rule):
             # exempt by def-use: the value is only used for .effective_kwargs
             par = fa.pm.get(c)
             only_kwargs = isinstance(par, ast.Attribute) and par.attr == "effective_kwargs"
+            if not only_kwargs and isinstance(par, ast.Assign) and par.value is c and len(par.targets) == 1 and isinstance(par.targets[0], ast.Name):
+                # bound to a local of which only key-free parts are read (it is never passed on, no hash is taken from it)
+                nm = par.targets[0].id
+                uses = [n for n in A.walk_body(fa.node) if isinstance(n, ast.Name) and n.id == nm and isinstance(n.ctx, ast.Load)]
+                defs = [n for n in A.walk_body(fa.node) if isinstance(n, ast.Name) and n.id == nm and not isinstance(n.ctx, ast.Load)]
+                only_kwargs = bool(uses) and len(defs) == 1 and any(isinstance(fa.pm.get(u), ast.Attribute) and fa.pm.get(u).attr == "effective_kwargs" for u in uses) \
+                    and all(isinstance(fa.pm.get(u), ast.Attribute) and fa.pm.get(u).attr in ("effective_kwargs", "args", "kwargs", "fn_reference") for u in uses)
             if only_kwargs:
                 ck.note(rule, fa.key(c, "exempt"), "reference used only for effective_kwargs (no key is derived from it)")
                 continue
@@ -507,24 +545,26 @@ def check(ck):
     ok = hk is not None and len(stores) >= 1
     where_r = init.where(stores[0][0]) if stores else init.where()
     if ok:
-        ca_final = fl.final("context_args")
         ca_txt = {"self.context_args"}
         ds = init.df.reaching(fl.exit, "self.context_args")
-        if len(ds) == 1 and ds[0].value is not None:
-            ca_txt.add(init.xnorm(ds[0].value, ds[0].node))
-            ca_txt.add(A.norm(ds[0].value))
+        fin = {(d_.node, d_.name) for d_ in ds}
+        raw = set()
+        for d_ in ds:
+            if d_.value is None:
+                continue
+            if len(ds) == 1:
+                ca_txt.add(init.xnorm(d_.value, d_.node))
+                ca_txt.add(A.norm(d_.value))
+            raw |= {x[len("param:"):] for x in init.deps(d_.value, d_.node) if x.startswith("param:") and x != "param:self"}
+        if len(raw) == 1:
             # the raw argument is empty exactly when its normalised form is
-            raw = [x[len("param:"):] for x in init.deps(ds[0].value, ds[0].node) if x.startswith("param:") and x != "param:self"]
-            if len(raw) == 1:
-                ca_txt.add(raw[0])
+            ca_txt |= raw
         base = conds(init, fl.hash_def.node)
         for (s, t) in stores:
             at = init.nodes(s)[0]
             # on the hash input, holding the (normalised) context args
             ok = ok and fl.denotes(t.value, at, hk)
-            vo = origin(init, s.value, at)
-            ok = ok and (same_def(vo, ca_final) if vo is not None and ca_final is not None else ftext(init, s.value, at) in
-                         {ftext(init, d_.value, d_.node) for d_ in ds})
+            ok = ok and fl.reads_final(s.value, at, "context_args")
             # before the hash is taken
             ok = ok and not (set(init.nodes(s)) & init.cfg.reach([fl.hash_at], include_start=False)) and fl.hash_at in init.cfg.reach(init.nodes(s))
         # exactly when non-empty
